@@ -31,6 +31,9 @@ def parseAllow (e : String) : Option ((String × String) × Allowance) :=
     | _ => none
   | _ => none
 
+def obsAllowRaw (o : Args) (field : String) : List ((String × String) × Allowance) :=
+  (o.list field).filterMap parseAllow
+
 def parseVersion (s : String) : Nat × Nat × Nat :=
   match s.splitOn "." with
   | [a, b, c] => (a.toNat?.getD 0, b.toNat?.getD 0, c.toNat?.getD 0)
@@ -181,7 +184,72 @@ def obsOf (m : MState) : Args :=
      ("allowsp", joinC (sortStrings allowsp)),
      ("pallow", joinC (sortStrings pallow)),
      ("minfo", renderMinfo (queryMarketingInfo s)),
-     ("logo", match renderDownload (queryDownloadLogo s) with | .ok v => v | .error _ => "err")]
+     ("logo", match renderDownload (queryDownloadLogo s) with | .ok v => v | .error _ => "err"),
+     ("ver", s!"{s.version.name}@{s.version.major}.{s.version.minor}.{s.version.patch}")]
+
+/-! ## Re-synchronisation: the model state rebuilt from an implementation observation -/
+
+def parseOptText (s : String) : Option String := if s == "-" then none else some (textDec s)
+
+/-- Inverse of `renderMinfo`; `none` for `err` / anything of another shape. -/
+def parseMinfo (s : String) : Option MarketingInfo :=
+  match s.splitOn ";" with
+  | [p, d, m, l] =>
+    let logo : Option (Option LogoInfo) :=
+      if l == "-" then some none
+      else if l == "embedded" then some (some .embedded)
+      else if l.startsWith "url:" then some (some (.url (textDec (l.drop 4).toString)))
+      else none
+    logo.map fun lg => ⟨parseOptText p, parseOptText d, parseOptText m, lg⟩
+  | _ => none
+
+/-- The stored logo behind a `logo=` rendering.  `err` (nothing to download): a URL logo when the
+marketing info names one, else nothing.  Data rendered as a hash (> 48 bytes): the old model value when it
+renders to the same hash, otherwise the state cannot be rebuilt. -/
+def resyncLogo (old : Option Logo) (mi : MarketingInfo) (r : String) : Option (Option Logo) :=
+  if r == "err" then
+    some (match mi.logo with | some (.url u) => some (.url u) | _ => none)
+  else
+    match r.splitOn ":" with
+    | [mime, d] =>
+      if mime != "svg" && mime != "png" then none
+      else if d.startsWith "#" then
+        match old with
+        | some (.svg b) => if mime == "svg" && renderData b == d then some old else none
+        | some (.png b) => if mime == "png" && renderData b == d then some old else none
+        | _ => none
+      else some (some (if mime == "svg" then .svg (hexBytes d.toList) else .png (hexBytes d.toList)))
+    | _ => none
+
+/-- `name@x.y.z` (split at the last `@`) -/
+def parseVer (s : String) : Option Version :=
+  match (s.splitOn "@").reverse with
+  | v :: n :: rest =>
+    match v.splitOn "." with
+    | [a, b, c] => do
+      let a ← a.toNat?; let b ← b.toNat?; let c ← c.toNat?
+      pure ⟨"@".intercalate (n :: rest).reverse, a, b, c⟩
+    | _ => none
+  | _ => none
+
+/-- Supply, minter/cap, balances, both allowance maps (`allow` = owner view → `State.allow`, `allowsp` =
+spender view → `State.allowSp`; both list everything the generator can create: pool owners / pool
+spenders), marketing info, logo and cw2 version come from the observation; block and pool stay. -/
+def resyncOf (m : MState) (o : Args) : Option MState :=
+  if (o.get "uninit").isSome then some { m with st := none } else do
+  let supply ← (o.str "supply").toNat?
+  let mint : Option Minter := if o.str "minter" == "-" then none else some ⟨o.str "minter", o.optNat "cap"⟩
+  let mi ← parseMinfo (o.str "minfo")
+  let logo ← resyncLogo (m.st.bind (·.logo)) mi (o.str "logo")
+  let version ← match parseVer (o.str "ver") with
+    | some v => some v
+    | none => m.st.map (·.version)
+  let balances : AMap Addr Nat := (o.list "bal").foldl (fun acc e => let p := parsePair e; acc.set p.1 p.2) []
+  let allow : AMap (Addr × Addr) Allowance := (obsAllowRaw o "allow").foldl (fun acc (k, v) => acc.set k v) []
+  let allowSp : AMap (Addr × Addr) Allowance :=
+    (obsAllowRaw o "allowsp").foldl (fun acc (k, v) => acc.set (k.2, k.1) v) []
+  let marketing : Option MarketingInfo := if mi == {} then none else some mi
+  pure { m with st := some { supply, mint, balances, allow, allowSp, version, marketing, logo } }
 
 def err (m : MState) (tag : String) : MState × StepResult := (m, { ok := some false, tag := tag })
 
@@ -349,6 +417,18 @@ def monitorOp (mu : Mon) (prev : Args) (toks : List String) (implOk : Bool) (out
       keys.filterMap fun k =>
         if norm vOwner k == norm vSp k && norm vOwner k == norm vPt k then none
         else some (mk "C19" "C19/views-differ" s!"pair={k.1}>{k.2}")
+    -- ---------- C20: the by-spender listing returns exactly the current items.  Model-independent: the pairs
+    -- the harness collected by paging AllSpenderAllowances for every pool spender against the pairs it
+    -- collected by paging AllAllowances for every pool owner (all allowances are between pool actors).
+    -- Same legacy guard as C19: before `migrate` a pre-0.14 state has no by-spender index.
+    let f20 := if mu.legacy then [] else
+      let ko := vOwner.map (·.1); let ks := vSp.map (·.1)
+      let ghost := ks.filter fun k => !ko.contains k
+      let missing := ko.filter fun k => !ks.contains k
+      if ghost.isEmpty && missing.isEmpty then [] else
+        let r (l : List (String × String)) := "+".intercalate (l.map fun k => s!"{k.1}>{k.2}")
+        [mk "C20" "C20/spender-listing-vs-current-items"
+          s!"listed_by_spender_but_not_current={r ghost} current_but_not_listed_by_spender={r missing}"]
     -- ---------- C02
     let f2 := if fresh || mu.legacy then [] else
       let dec := changed.filter fun k => balOf cur k < balOf prev k
@@ -418,7 +498,7 @@ def monitorOp (mu : Mon) (prev : Args) (toks : List String) (implOk : Bool) (out
     let fg := mu.drawn.filterMap fun (k, d) =>
       if d ≤ (mu.granted.get? k).getD 0 then none
       else some (mk "C02" "C02/cumulative" s!"pair={k.1}>{k.2} drawn={d} granted={(mu.granted.get? k).getD 0}")
-    (mu, f1 ++ f13 ++ f19 ++ f2 ++ fg)
+    (mu, f1 ++ f13 ++ f19 ++ f20 ++ f2 ++ fg)
 
 def scen : Scen MState Mon where
   init h := { pool := h.list "pool" }
@@ -426,5 +506,6 @@ def scen : Scen MState Mon where
   obs := obsOf
   monInit _ := {}
   monitor := monitorOp
+  resync := some resyncOf
 
 end CwPlus.Driver.Cw20
